@@ -93,7 +93,7 @@ def binder_kinds(F):
         for c in calls(fn["body"]):
             if c.get("name") == "add_symbol":
                 return True
-            if depth < 2 and (c.get("name") or "").endswith("_begin") and c.get("cls") == cls:
+            if depth < 2 and c.get("cls") == cls and c.get("name") not in ("push_frame", "popFrame"):
                 t = F.resolve_method(cls, c["name"])
                 if t is not None and t.get("body") is not None and t is not fn and opens(t, depth + 1):
                     return True
@@ -105,11 +105,21 @@ def binder_kinds(F):
             end = F.resolve_method(cls, fn["name"][:-6] + "_end")
             if end is None or end.get("body") is None:
                 continue
+            kind_enum = "kind_t"
             for c in calls(end["body"]):
                 if (c.get("fn") or "").startswith("UTAP::expression_t::create_") and c.get("args"):
                     for x in walk(c["args"][0]):
                         if x.get("dk") == "enumerator":
                             out[x["name"]] = end["name"]
+                elif c.get("cls") == cls and c.get("args"):
+                    # a helper shared by several _end callbacks that is told the kind(s) to create
+                    t = F.resolve_method(cls, c.get("name"))
+                    if t is not None and t.get("body") is not None and \
+                            any((y.get("fn") or "").startswith("UTAP::expression_t::create_") for y in calls(t["body"])):
+                        for a in c["args"]:
+                            for x in walk(a):
+                                if x.get("dk") == "enumerator" and kind_enum in (x.get("t") or kind_enum):
+                                    out[x["name"]] = end["name"]
     if not {"FORALL", "EXISTS", "SUM"} <= set(out):
         raise AnalysisBroken("binder kinds not found in ExpressionBuilder (%s)" % sorted(out))
     return out
@@ -746,11 +756,11 @@ def _c12_rest(chk, F, rid):
                   ("UTAP::StatementBuilder::iteration_begin", "iteration variable"),
                   ("UTAP::DocumentBuilder::addSelectSymbolToFrame", "select binder")]
     for f_ in sorted(F.functions.values(), key=lambda z: z.get("line") or 0):
-        if f_.get("cls") == "UTAP::ExpressionBuilder" and (f_.get("name") or "").startswith("expr_") and \
-                f_["name"].endswith("_begin") and f_.get("body") is not None and f_["q"] not in [x[0] for x in binder_cbs] \
-                and any(c.get("name") == "add_symbol" for c in calls(f_["body"])):
+        # (whatever its name: the four callbacks may share one helper that opens the scope)
+        if f_.get("cls") == "UTAP::ExpressionBuilder" and f_.get("body") is not None and \
+                f_["q"] not in [x[0] for x in binder_cbs] and any(c.get("name") == "add_symbol" for c in calls(f_["body"])):
             binder_cbs.append((f_["q"], "binder of a quantifier over a dynamic template"))
-    if len(binder_cbs) < 7:
+    if len(binder_cbs) < 4:
         raise AnalysisBroken("binder callbacks: only %d found" % len(binder_cbs))
     for q, what in binder_cbs:
         b = F.fn(q)
